@@ -660,3 +660,72 @@ func corpusFor(tier string, tagFilter func(tplSpec) bool) []tplSpec {
 	}
 	return out
 }
+
+// oddCorpus: lines with unusual shapes inside the zones (nulls, empty containers, nested
+// arrays, operators holding unexpected value kinds, arbitrary keys of class F).
+func oddCorpus(tier string) []tplSpec {
+	g := &gen{names: map[string]bool{}}
+	std := envelopes[0]
+	mk := func(cmdText string) string {
+		f := &filler{}
+		return f.fill(std.wrap(cmdText), "str")
+	}
+	odd := []struct{ name, v string }{
+		{"null", `null`}, {"emptyarr", `[]`}, {"emptyobj", `{}`}, {"arr-null", `[null]`}, {"arr-empty", `[[]]`},
+		{"arr-arr-doc", `[[{"%G":%S}]]`}, {"arr-emptyobj", `[{}]`}, {"doc-null", `{"%G":null}`}, {"doc-emptyarr", `{"%G":[]}`},
+		{"arr-mixed", `[%S,null,%N,%B,{"%G":null},[%S,[]]]`}, {"num", `%N`}, {"bool", `%B`},
+	}
+	hosts := []struct{ name, text string }{
+		{"filter-field", `{"find":"<<COLL:coll>>","filter":{"%G":@O},"$db":"<<DB:db>>"}`},
+		{"filter-eq", `{"find":"<<COLL:coll>>","filter":{"%G":{"$eq":@O}}}`},
+		{"filter-in", `{"find":"<<COLL:coll>>","filter":{"%G":{"$in":@O}}}`},
+		{"filter-and", `{"find":"<<COLL:coll>>","filter":{"$and":@O}}`},
+		{"filter-date", `{"find":"<<COLL:coll>>","filter":{"%G":{"$date":@O}}}`},
+		{"filter-oid", `{"find":"<<COLL:coll>>","filter":{"_id":{"$oid":@O}}}`},
+		{"filter-binary", `{"find":"<<COLL:coll>>","filter":{"%G":{"$binary":{"base64":@O,"subType":"00"}}}}`},
+		{"update-set", `{"update":"<<COLL:coll>>","updates":[{"q":{"%G":%S},"u":{"$set":{"%G":@O}}}]}`},
+		{"updates", `{"update":"<<COLL:coll>>","updates":@O}`},
+		{"insert-docs", `{"insert":"<<COLL:coll>>","documents":[{"%G":@O}]}`},
+		{"match", `{"aggregate":"<<COLL:coll>>","pipeline":[{"$match":{"%G":@O}}]}`},
+		{"match-op", `{"aggregate":"<<COLL:coll>>","pipeline":[{"$match":@O}]}`},
+		{"project", `{"aggregate":"<<COLL:coll>>","pipeline":[{"$project":{"%G":@O}}]}`},
+		{"facet", `{"aggregate":"<<COLL:coll>>","pipeline":[{"$facet":{"%G":@O}}]}`},
+		{"group", `{"aggregate":"<<COLL:coll>>","pipeline":[{"$group":{"_id":@O}}]}`},
+		{"lookup", `{"aggregate":"<<COLL:coll>>","pipeline":[{"$lookup":{"from":"%C","pipeline":@O,"as":"%G"}}]}`},
+		{"stage", `{"aggregate":"<<COLL:coll>>","pipeline":[@O]}`},
+		{"pipeline", `{"aggregate":"<<COLL:coll>>","pipeline":@O}`},
+		{"search-text", `{"aggregate":"<<COLL:coll>>","pipeline":[{"$search":{"text":{"query":@O,"path":"%G"}}}]}`},
+		{"search-like", `{"aggregate":"<<COLL:coll>>","pipeline":[{"$search":{"moreLikeThis":{"like":@O}}}]}`},
+		{"sort", `{"find":"<<COLL:coll>>","filter":{},"sort":{"%G":@O}}`},
+		{"anykey", `{"find":"<<COLL:coll>>","filter":{"<<F:f1>>":@O}}`},
+		{"anykey-nested", `{"find":"<<COLL:coll>>","filter":{"%G":{"<<F:f1>>":@O}}}`},
+		{"anykey-stage", `{"aggregate":"<<COLL:coll>>","pipeline":[{"<<F:f1>>":@O}]}`},
+		{"anykey-match", `{"aggregate":"<<COLL:coll>>","pipeline":[{"$match":{"<<F:f1>>":@O}}]}`},
+		{"anykey-project", `{"aggregate":"<<COLL:coll>>","pipeline":[{"$project":{"%G":{"<<F:f1>>":@O}}}]}`},
+		{"anykey-search", `{"aggregate":"<<COLL:coll>>","pipeline":[{"$search":{"<<F:f1>>":@O}}]}`},
+	}
+	for hi, h := range hosts {
+		for oi, o := range odd {
+			tags := []string{"odd"}
+			if (hi+oi)%3 == 0 || strings.HasPrefix(h.name, "anykey") && (o.name == "null" || o.name == "arr-arr-doc" || o.name == "num") {
+				tags = append(tags, "quick")
+			}
+			g.add("odd:"+h.name+"/"+o.name, mk(strings.Replace(h.text, "@O", o.v, 1)), tags...)
+		}
+	}
+	// other components and top-level oddities (outside every zone)
+	g.add("odd:network", `{"t":{"$date":"2024-05-01T10:00:00.123+00:00"},"s":"I","c":"NETWORK","id":22943,"ctx":"listener","msg":"Connection accepted","attr":{"remote":"<<IP:ip>>","uuid":{"uuid":{"$uuid":"<<S:s1>>"}},"connectionId":"<<N:n1>>","connectionCount":12345678901234567890,"ratio":1.50e-7,"ok":"<<B:b1>>","nothing":null,"list":[1,[2,[]],{}]}}`, "odd", "quick")
+	g.add("odd:other-with-command", `{"t":{"$date":"2024-05-01T10:00:00.123+00:00"},"s":"I","c":"ACCESS","id":1,"ctx":"conn1","msg":"note","attr":{"ns":"<<DB:db>>.<<COLL:coll>>","command":{"find":"<<COLL:coll>>","filter":{"<<G:g1>>":"<<S:s1>>"}},"n":"<<N:n1>>"}}`, "odd", "quick")
+	g.add("odd:attr-string", `{"t":{"$date":"2024-05-01T10:00:00.123+00:00"},"s":"I","c":"COMMAND","id":1,"ctx":"conn1","msg":"Slow query","attr":"<<S:s1>>"}`, "odd", "quick")
+	g.add("odd:attr-null", `{"t":{"$date":"2024-05-01T10:00:00.123+00:00"},"s":"I","c":"COMMAND","id":1,"ctx":"conn1","msg":"Slow query","attr":null,"x":[[{"a":null}]]}`, "odd", "quick")
+	g.add("odd:command-string", `{"t":{"$date":"2024-05-01T10:00:00.123+00:00"},"s":"I","c":"COMMAND","id":1,"ctx":"conn1","msg":"Slow query","attr":{"command":"<<S:s1>>","ns":"<<DB:db>>.<<COLL:coll>>","remote":"<<N:n1>>"}}`, "odd", "quick")
+	g.add("odd:no-attr", `{"t":{"$date":"2024-05-01T10:00:00.123+00:00"},"s":"W","c":"<<S:s1>>","id":"<<N:n1>>","ctx":"<<S:s2>>","msg":"<<S:s3>>","tags":["<<S:s4>>"],"truncated":{"a":{"b":[]}}}`, "odd", "quick")
+	var out []tplSpec
+	for _, t := range g.out {
+		if tier == "quick" && !t.Tags["quick"] {
+			continue
+		}
+		out = append(out, t)
+	}
+	return out
+}
